@@ -206,7 +206,7 @@ def fs_term(s):
 def scenario(id, **kw):
     sc = {"id": id, "layout": "flat", "with_import": True, "mutation": None, "args": ["build"], "fail": None, "plan": "",
           "keep": False, "hashfast": False, "prewarm": False, "force": False, "compile": False, "debug": False,
-          "leftover": None, "leftover_where": "top", "crash": None, "enospc": None, "envfault": None, "ref": None, "special": False}
+          "leftover": None, "leftover_where": "top", "crash": None, "enospc": None, "envfault": None, "out": None, "ref": None, "special": False}
     sc.update(kw)
     return sc
 
@@ -353,6 +353,24 @@ def build_scenarios(rng, gen, quick):
         A(scenario("env-cache-parent-file-debug", envfault="cache-parent-file", debug=True))
         for ef in ("cache-parent-file", "cache-is-file", "workdir-missing"):
             A(scenario("left-prefix:0@env-" + ef, envfault=ef, leftover={"kind": "file", "b64": "", "label": "prefix:0"}, ref="env-" + ef))
+    # L: -compile <out> as a command of the fault scenarios: what is at the output path beforehand x where that path is x where the
+    # run fails.  "start": -d magefiles with a relative path - the go tool resolves it against the -d directory, a file of that
+    # name in the start directory is somebody else's.
+    shapes = ["absent", "old-binary", "user-file", "directory", "symlink"]
+    wheres = [("inside", "flat"), ("start", "named"), ("abs", "flat")]
+    cfaults = [("ok", {}), ("type-error", {"mutation": "type-error"}), ("go-fail-build", {"plan": "fail:build"}),
+               ("syntax-package", {"mutation": "syntax-package"}), ("syntax-body", {"mutation": "syntax-body"}),
+               ("create-fails", {"leftover": {"kind": "dir"}, "special": True})]
+    for where, layout in wheres:
+        for shape in shapes:
+            for fname, kw in cfaults:
+                if quick and fname not in ("ok", "type-error") and shape != "user-file":
+                    continue
+                A(scenario("compile-%s-%s-%s" % (where, shape, fname), compile=True, args=[], layout=layout,
+                           out={"where": where, "shape": shape}, leftover_where="mfdir" if layout == "named" else "top", **kw))
+                if (not quick or (where == "inside" and shape == "user-file")) and fname in ("ok", "type-error"):
+                    A(scenario("compile-%s-%s-%s-keep" % (where, shape, fname), compile=True, args=[], layout=layout, keep=True,
+                               out={"where": where, "shape": shape}, **kw))
     seen, out = set(), []
     for s in S:                      # the random picks may name the same scenario twice
         if s["id"] not in seen:
@@ -379,6 +397,45 @@ def place_leftover(d, sc):
             os.symlink(lo["target"], p)
 
 
+OUT = "out.bin"
+
+
+def out_real(sc):
+    """where `go build -o` really writes: (tree, relative path). A relative path is resolved by the go tool, which runs in inv.Dir."""
+    o = sc["out"]
+    if o["where"] == "abs":
+        return ("outdir", OUT)
+    return ("proj", ("magefiles/" + OUT) if sc["layout"] == "named" else OUT)
+
+
+def place_output(d, workdir, sc):
+    o = sc.get("out")
+    if not o:
+        return
+    outdir = os.path.join(workdir, "outdir")
+    os.makedirs(outdir, exist_ok=True)
+    with open(os.path.join(outdir, "other.txt"), "w") as fh:
+        fh.write("something else in the output directory\n")
+    dirs = {"inside": [d], "start": [d, os.path.join(d, "magefiles")], "abs": [outdir]}[o["where"]]
+    for dd in dirs:
+        p = os.path.join(dd, OUT)
+        if o["shape"] == "old-binary":
+            with open(p, "wb") as fh:
+                fh.write(b"\x7fELF an earlier good build " + hashlib.sha1(dd.encode()).digest() * 20)
+            os.chmod(p, 0o755)
+        elif o["shape"] == "user-file":
+            with open(p, "wb") as fh:
+                fh.write(b"precious user data\n")
+        elif o["shape"] == "directory":
+            os.makedirs(p)
+            with open(os.path.join(p, "inner.txt"), "w") as fh:
+                fh.write("inner\n")
+        elif o["shape"] == "symlink":
+            with open(os.path.join(dd, "linked-user-file.txt"), "w") as fh:
+                fh.write("the link's target\n")
+            os.symlink("linked-user-file.txt", p)
+
+
 def mage_args(sc, outbin):
     a = ["-d", "magefiles"] if sc["layout"] == "named" else []      # Invoke is GIVEN a directory called magefiles
     if sc["keep"]:
@@ -388,7 +445,8 @@ def mage_args(sc, outbin):
     if sc["debug"]:
         a.append("-debug")
     if sc["compile"]:
-        a += ["-compile", outbin]
+        o = sc.get("out")
+        a += ["-compile", outbin if not o else (os.path.join(os.path.dirname(outbin), "outdir", OUT) if o["where"] == "abs" else OUT)]
     if sc.get("envfault") == "workdir-missing":
         a += ["-w", os.path.join(os.path.dirname(outbin), "no-such-workdir")]
     return a + list(sc["args"])
@@ -447,7 +505,11 @@ def run_scenario(mage, tools, sc, files, workdir):
                 with open(os.path.join(p, "inner.txt"), "w") as fh:
                     fh.write("x\n")
     place_leftover(d, sc)
+    place_output(d, workdir, sc)
+    outdir = os.path.join(workdir, "outdir")
     ob = {"before": snap(d), "before_h": tree_hash(d), "exe_cached": cache_has_files(cache) or (ef == "exe-is-dir" and sc["hashfast"])}
+    if sc.get("out"):
+        ob["out_before_h"] = tree_hash(outdir)
     args = mage_args(sc, outbin)
     if ef in ("home-unset", "home-unset-gocache"):
         e = mage.env(run_env(sc, tools, log), cache)
@@ -486,6 +548,9 @@ def run_scenario(mage, tools, sc, files, workdir):
         p.stdout.close(); p.stderr.close()
         time.sleep(0.05)
         ob.update(rc=None, out="", err="", log=read_log(log), reached=reached, after=snap(d), after_h=tree_hash(d), killed_rc=p.returncode)
+        mp = os.path.join(d, MAIN)
+        if os.path.isfile(mp) and not os.path.islink(mp):
+            ob["crash_main_b64"] = base64.b64encode(open(mp, "rb").read()).decode()
         # the next, complete run
         log2 = os.path.join(workdir, "go2.log")
         ob2_before, ob2_before_h = snap(d), tree_hash(d)
@@ -496,6 +561,8 @@ def run_scenario(mage, tools, sc, files, workdir):
         return ob
     r = mage.run(d, args, env=run_env(sc, tools, log), cache=cache)
     ob.update(rc=r["rc"], out=r["out"], err=r["err"], log=read_log(log), after=snap(d), after_h=tree_hash(d))
+    if sc.get("out"):
+        ob["out_after_h"] = tree_hash(outdir)
     if sc["keep"]:
         for dd in (d, os.path.join(d, "magefiles")):
             p = os.path.join(dd, MAIN)
@@ -684,10 +751,22 @@ def invoke_case(sc, ob, faults, imports, tcode, gen_tok, partial_tok, lists, cra
     else:
         obs = "{| ob_fs := %s; ob_exit := None; ob_stage := SAny; ob_calls := None |}" % fs_term(ob["after"])
         cr = "(Some %d)" % crash
-    return ("CInvoke {| c_world := %s; c_faults := %s; c_flags := %s; c_topnamed := %s; c_ohf := %s; c_crash := %s; c_fs := %s; c_obs := %s |}" % (
+    cout = "None"
+    if sc.get("out") and sc["out"]["where"] != "abs":
+        binb, inner = "bin", "inner"
+        a = ob["after"].get(OUT)
+        if a and a[0] == "f":
+            binb = a[1]
+        elif a and a[0] == "d":
+            b0 = (ob["before"].get(OUT) or ("d", {}))[1]
+            for n2, v2 in a[1].items():
+                if v2[0] == "f" and b0.get(n2) != v2:
+                    inner, binb = n2, v2[1]
+        cout = "(Some (%s, %s, %s))" % (coq_str(OUT), coq_str(binb), coq_str(inner))
+    return ("CInvoke {| c_world := %s; c_faults := %s; c_flags := %s; c_topnamed := %s; c_ohf := %s; c_crash := %s; c_out := " + cout + "; c_fs := %s; c_obs := %s |}") % (
         world_term(ob, imports, tcode, gen_tok, partial_tok, lists), coq_list(faults), flags_term(sc), coq_bool(sc["layout"] == "named"),
         coq_bool(sc["layout"] == "both"),
-        cr, fs_term(ob["before"]), obs))
+        cr, fs_term(ob["before"]), obs)
 
 
 # ------------------------------------------------------------------------------------------------
@@ -706,6 +785,23 @@ def oracle_run(sc, ob, gen_hashes, ref_ob):
         for p in main_paths(sc):
             expect.pop(p, None)                       # a leftover generated file may (must) disappear
     after = dict(ob["after_h"])
+    if sc.get("out"):
+        # -compile <out>: on success exactly the output is (re)written; on any failure nothing that existed changes
+        tree, real = out_real(sc)
+        trees = {"proj": (expect, after), "outdir": (dict(ob["out_before_h"]), dict(ob["out_after_h"]))}
+        ok = ob["rc"] == 0
+        for tn, (e_, a_) in trees.items():
+            if ok and tn == tree:
+                under = [k for k in set(e_) | set(a_) if k == real or k.startswith(real + "/")]
+                newf = [k for k in under if a_.get(k) not in (None, "dir") and not str(a_.get(k)).startswith("link:") and a_.get(k) != e_.get(k)]
+                if not newf:
+                    bad.append("mage -compile %s exited 0 but no new file is at (or in) the output path %s" % (sc["out"], real))
+                for k in under:
+                    e_.pop(k, None)
+                    a_.pop(k, None)
+            if tn == "outdir" and e_ != a_:
+                diff = sorted(k for k in set(e_) | set(a_) if e_.get(k) != a_.get(k))
+                bad.append("mage -compile (exit %s) changed the output directory beyond the output file: %s" % (ob["rc"], diff[:6]))
     kept = [p for p in main_paths(sc) if p in after and p not in expect]
     if sc["keep"]:
         for p in kept:
@@ -721,6 +817,8 @@ def oracle_run(sc, ob, gen_hashes, ref_ob):
             bad.append("after a failed write of the generated file (file system full) it remains in the magefile directory: %s" % diff)
         elif all(k in main_paths(sc) for k in diff) and all(k in after for k in diff):
             bad.append("a generated file remains in the magefile directory: %s" % diff)
+        elif sc.get("out") and ob["rc"] != 0:
+            bad.append("a failing mage -compile (exit %s) changed files that were there before: %s" % (ob["rc"], diff[:6]))
         else:
             bad.append("the directory was changed: %s" % diff[:6])
     if ref_ob is not None:
@@ -1109,7 +1207,14 @@ def run(ctx):
                 items.append(invoke_case(sc, ob, [], imports, 0, gen_tok, "partial", (True, True, True), crash=k))
                 meta.append((sc, "crash"))
             else:
-                # any crash point: the directory must be one the model can be in after some number of steps
+                # any crash point: the directory must be one the model can be in after some number of steps.  The template is
+                # written in many small writes: a kill in the MIDDLE of the WriteMain step leaves a proper prefix of the
+                # generated file - for the model that is the state between CreateMain and the end of WriteMain (File "")
+                left = base64.b64decode(ob.get("crash_main_b64", ""))
+                if 0 < len(left) < len(gen) and gen.startswith(left):
+                    cov["kills_in_the_middle_of_the_write"] = cov.get("kills_in_the_middle_of_the_write", 0) + 1
+                    ob = dict(ob, after=dict(ob["after"], **{MAIN: ("f", "")}))
+                    nx = dict(nx, before=dict(nx["before"], **{MAIN: ("f", "")}))
                 cands = [invoke_case(sc, ob, [], imports, 0, gen_tok, "partial", (True, True, True), crash=kk) for kk in range(0, 25)]
                 items.append(("ANY", cands))
                 meta.append((sc, "crash-any"))
@@ -1141,7 +1246,7 @@ def run(ctx):
                 for c in oracle_run(dict(sc, leftover=None), ob, None, None):
                     ctx.violation({"kind": "oracle", "clause": c, "scenario": sc["id"]}, case=case)
         else:
-            comparable = sc["layout"] == "flat" and sc["with_import"] and not sc["mutation"]
+            comparable = sc["layout"] == "flat" and sc["with_import"] and not sc["mutation"] and not sc["compile"]   # -compile: the binary's name is in the text
             for c in oracle_run(sc, ob, gen_hashes if comparable else None, ref_ob):
                 ctx.violation({"kind": "oracle", "clause": c, "scenario": sc["id"]}, case=case)
         lists = lists_for(sc)
@@ -1159,7 +1264,7 @@ def run(ctx):
             dist["leftover"][lab] = dist["leftover"].get(lab, 0) + 1
     # -keep: byte-identical across runs
     keeps = {o["kept_b64"] for o in obs.values() if o.get("kept_b64")}
-    flat_keeps = {obs[s["id"]]["kept_b64"] for s in scs if s["keep"] and s["layout"] == "flat" and s["with_import"] and not s["mutation"] and obs[s["id"]].get("kept_b64")}
+    flat_keeps = {obs[s["id"]]["kept_b64"] for s in scs if s["keep"] and s["layout"] == "flat" and s["with_import"] and not s["mutation"] and not s["compile"] and obs[s["id"]].get("kept_b64")}
     if len(flat_keeps | {ref_kept}) > 1:
         ctx.violation({"kind": "oracle", "clause": "the file kept by -keep differs between runs on the same magefiles"}, case={"scenario": byid.get("keep-ok"), "proj_seed": proj_seed})
 
